@@ -134,5 +134,5 @@ def run(ctx, res):
     res.count("numeric rejections", numeric_rejections(ctx, res, "R2.5", hs + helpers, "flat x body handlers and hit-set helpers"))
     # R2.4 the membership tests that clip every hit (`hit in cpg`, `end point in cph`) are inclusive at the boundary
     from .c05 import r55_inclusive_thresholds
-    r55_inclusive_thresholds(ctx, res, cnames=("ConvexPolygon", "ConvexPolyhedron"), rule="R2.4", minimum=2)
+    r55_inclusive_thresholds(ctx, res, cnames=("ConvexPolygon", "ConvexPolyhedron"), rule="R2.4", minimum=1)
     res.undecided_ob("coordinates of the hits; longest-segment selection; merging of coincident hits by hash; tangency")
